@@ -7,7 +7,7 @@ from trie.fog import HexaryTrieFog, TrieFrontierCache
 from trie.exceptions import (PerfectVisibility, FullDirectionalVisibility, MissingTraversalNode, TraversedPartialPath)
 
 ID = "C09"
-LEAN_IMPORTS = ["PyTrie.Props.C09", "PyTrie.Props.NonVacuity", "PyTrie.Props.NonVacuity2", "PyTrie.Props.NonVacuity6", "PyTrie.Props.NonVacuity7"]
+LEAN_IMPORTS = ["PyTrie.Props.C09", "PyTrie.Props.NonVacuity", "PyTrie.Props.NonVacuity2", "PyTrie.Props.NonVacuity6", "PyTrie.Props.NonVacuity7", "PyTrie.Props.NonVacuity8"]
 THEOREMS = [
     "PyTrie.Props.C09.step_defined",
     "PyTrie.Props.C09.finds_stable",
@@ -36,6 +36,13 @@ THEOREMS = [
     "PyTrie.Props.C09.raw_walk_never_stuck",
     "PyTrie.Props.C09.walk_over_history",
     "PyTrie.Props.C09.walk_over_history_never_stuck",
+    "PyTrie.Props.NonVacuity8.evs_reach",
+    "PyTrie.Props.NonVacuity8.sched_ok",
+    "PyTrie.Props.NonVacuity8.run_eval",
+    "PyTrie.Props.NonVacuity8.retry_step",
+    "PyTrie.Props.NonVacuity8.walk_over_history_witness",
+    "PyTrie.Props.NonVacuity8.walk_over_history_instances",
+    "PyTrie.Props.NonVacuity8.walk_never_stuck_witness",
     "PyTrie.Props.NonVacuity6.hist5_versions_p",
     "PyTrie.Props.NonVacuity6.hist5_versions_consistent",
     "PyTrie.Props.NonVacuity6.read_v5_ok",
